@@ -187,3 +187,18 @@ def run(chk: Check, model):
     rule_queue_discipline(chk, view, "C05.queues")
     rule_reset_complete(chk, view, "C05.reset")
     rule_eps_filter(chk, view, "C05.eps")
+    # "each new episode starts from sequence number 0 and time 0": what a step sees is the per-episode tick / schedule, not whatever
+    # the graph state handed to reset() carried over from an earlier episode
+    from ..asyncrt import one, queue_ops
+    rps = view.results["node.push_step"]
+    f_ps = view.fi("node.push_step")
+    pop = one(queue_ops(rps, "q_ts_start", "popleft"), "popleft on q_ts_start")
+    calls = [e for e in rps.events if e.kind == "call" and e.name == "self._async_step"]
+    ok = len(calls) == 1 and calls[0].args and T.mk_attr(calls[0].args[0], "seq") == T.mk_index(pop.term, T.ZERO)
+    chk.add("C05.reset", "step numbering restarts with the episode: StepState.seq = the episode's tick", bool(ok),
+            f"the step is called with seq = {T.show(T.mk_attr(calls[0].args[0], 'seq'))[:100] if calls and calls[0].args else None}, expected the tick popped from q_ts_start "
+            "(the tick counter is reset at every episode start; a carried-over seq is not)", chk.loc(f_ps))
+    sim = {S("self._clock"): T.sym("rex.constants.Clock.SIMULATED")}
+    ts = T.subst(T.mk_attr(calls[0].args[0], "ts"), sim) if calls and calls[0].args else T.NONE
+    chk.add("C05.reset", "step time restarts with the episode: StepState.ts = the scheduled start", ts == T.mk_index(pop.term, T.ONE),
+            f"the step is called with ts = {T.show(ts)[:100]}, expected the start time popped from q_ts_start", chk.loc(f_ps))
